@@ -19,7 +19,7 @@ import jax.numpy as jnp
 
 from piquasso._math.linalg import reduce_
 
-from .utils import factorial, eig
+from .utils import factorial
 
 
 def loop_hafnian_with_reduction(matrix, diagonal, reduce_on):
@@ -141,18 +141,25 @@ def _loop_hafnian(A):
 def _get_loop_polynom_coefficients(A, X_delta, degree):
     AX_delta = A @ X_delta
 
-    eigenvalues, O = eig(AX_delta)
-
-    Oinv = jnp.linalg.inv(O)
-
     v = jnp.diag(A)
 
-    left = v @ X_delta @ O
-    right = Oinv @ v.T
+    left = v @ X_delta
 
-    def func(power):
-        diags = jnp.diag(jnp.power(eigenvalues, power - 1))
-        powertrace = jnp.sum(jnp.power(eigenvalues, power))
-        return (powertrace / power + (left @ diags @ right)) / 2.0
+    # NOTE: The power traces are calculated with matrix powers instead of an
+    # eigendecomposition, since `AX_delta` may be defective (e.g., for `A = I`), in
+    # which case the eigenvector matrix is singular.
+    def step(previous_power, power):
+        current_power = previous_power @ AX_delta
+        coefficient = (
+            jnp.trace(current_power) / power + left @ previous_power @ v
+        ) / 2.0
 
-    return jax.lax.map(func, jnp.arange(1, degree + 1))
+        return current_power, coefficient
+
+    _, coefficients = jax.lax.scan(
+        step,
+        jnp.eye(AX_delta.shape[0], dtype=AX_delta.dtype),
+        jnp.arange(1, degree + 1),
+    )
+
+    return coefficients
